@@ -40,13 +40,13 @@ def requirements(tier):
     r = {f"ladder_judged:{n}": 20 for n in NAMES}
     r.update({"homogeneity_rungs_checked": 5000, "finite_rungs_checked": 8000, "rejections_checked": 200, "history_independence_checked": 300,
               "equal_seed_checked": 100, "contract_evaluations_aggregator": 10000, "w_m_equals_1": 30, "w_n_equals_1": 30, "w_m_gt_n": 100,
-              "w_zero_or_duplicate_rows": 100, "w_fine_rung_above_norm_eps_with_conflict": 50, "w_float32": 300, "w_seed_changes_result": 10, "w_history_call_in_other_dtype": 200, "w_column_major_input": 100, "w_very_wide": 30})
+              "w_zero_or_duplicate_rows": 100, "w_fine_rung_above_norm_eps_with_conflict": 50, "w_float32": 300, "w_seed_changes_result": 10, "w_history_call_in_other_dtype": 200, "w_column_major_input": 100, "w_very_wide": 30, "w_more_than_25_rows": 30})
     if tier == "thorough":
         r["repo_tests_contract_evaluations"] = 1000
     return r
 
 
-SHAPE_CLASSES = ["m1", "n1", "tall", "zero_rows", "duplicated", "generic", "conflict", "generic", "conflict", "very_wide"]
+SHAPE_CLASSES = ["m1", "n1", "tall", "zero_rows", "duplicated", "generic", "conflict", "generic", "conflict", "very_wide", "clustered_many_rows"]
 
 
 def gen_ladder(rng, i):
@@ -63,6 +63,12 @@ def gen_ladder(rng, i):
         J, _ = M.gen(rng, klass="zero_rows", max_m=6, max_n=8)
     elif sc == "duplicated":
         J, _ = M.gen(rng, klass="duplicated", max_m=6, max_n=8)
+    elif sc == "clustered_many_rows":
+        # > 25 rows sharing a component far larger than their mutual differences (many workers with nearly equal gradients)
+        m = int(rng.integers(26, 41))
+        n = int(rng.integers(4, 12))
+        common = rng.standard_normal(n) * float(10 ** rng.uniform(3, 4.2) if dname == "float32" else 10 ** rng.uniform(6, 8))
+        J = common + rng.standard_normal((m, n))
     elif sc == "very_wide":
         m = int(rng.integers(2, 5))
         J = rng.standard_normal((m, [5000, 50000][int(rng.integers(2))])) * (10.0 ** rng.uniform(-0.5, 0.5, size=(m, 1)))
@@ -167,6 +173,8 @@ def check_ladder(case, ctx):
     ctx.evaluated(fingerprint(case), nontrivial=len(nz) >= 2)
     if n >= 1000:
         ctx.count("w_very_wide")
+    if m > 25:
+        ctx.count("w_more_than_25_rows")
     ctx.sample({"J": np.round(J[:, :8], 4).tolist(), "columns": n, "agg": desc, "dtype": dname, "shape_class": sc, "rungs": len(rungs)})
 
 
